@@ -151,6 +151,8 @@ def make_crop(cs):
     kw = {}
     if cs.get("scale"):
         kw.update(scaled_crop_kwargs(cs["name"], cs["scale"]))
+    if cs.get("gddscale"):
+        kw.update(scaled_gdd_kwargs(cs["name"], cs["gddscale"]))
     kw.update(cs.get("kw") or {})
     return Crop(cs["name"], planting_date=cs["planting"], harvest_date=cs.get("harvest"), **kw)
 
@@ -321,3 +323,22 @@ def iwc_for(soil_spec, kind):
     if kind == "Depth":
         return {"wc_type": "Pct", "method": "Depth", "depth_layer": [0.2, 0.6, 1.0], "value": [30.0, 70.0, 100.0]}
     raise ValueError(kind)
+
+
+GDD_KEYS = ("Emergence", "MaxRooting", "Senescence", "Maturity", "HIstart", "Flowering", "YldForm")
+
+
+def scaled_gdd_kwargs(name, f):
+    """Thermal-time crop with all thermal phase lengths x f and canopy rates / f (a short thermal crop)."""
+    from aquacrop.entities.crops.crop_params import crop_params
+
+    p = crop_params[name]
+    if p["CalendarType"] != 2:
+        raise ValueError("only thermal crops")
+    kw = {}
+    for k in GDD_KEYS:
+        v = float(p[k])
+        kw[k] = v * f if v > 0 else v
+    kw["CGC"] = float(p["CGC"]) / f
+    kw["CDC"] = float(p["CDC"]) / f
+    return kw
